@@ -98,6 +98,8 @@ func (s *scheduler) spawn(name string, body func()) *thread {
 				return
 			case pathAbort:
 				s.outcome <- pathOutcome{abort: &r}
+			case targetPanic:
+				s.uncaughtPanic(r)
 			default:
 				s.outcome <- pathOutcome{panic: r, stack: hostStack()}
 			}
@@ -105,6 +107,30 @@ func (s *scheduler) spawn(name string, body func()) *thread {
 		body()
 	}()
 	return t
+}
+
+// uncaughtPanic turns a target panic that no frame recovered into a
+// violation (a crash of the program), unless it lies in a known region.
+func (s *scheduler) uncaughtPanic(tp targetPanic) {
+	p := s.i.path
+	msg := panicString(tp)
+	defer func() {
+		r := recover()
+		switch r := r.(type) {
+		case nil:
+			ab := pathAbort{pathKnown, "panic: " + msg}
+			s.outcome <- pathOutcome{abort: &ab}
+		case pathAbort:
+			if p.violation != nil {
+				p.violation.Detail = msg
+				p.violation.Trace = append(p.violation.Trace, p.panicStack...)
+			}
+			s.outcome <- pathOutcome{abort: &r}
+		default:
+			s.outcome <- pathOutcome{panic: r, stack: hostStack()}
+		}
+	}()
+	p.failOrKnown(p.tc.tTrue, "panic: "+msg, "panic")
 }
 
 // exitThread is called on the exiting thread's goroutine.
